@@ -754,6 +754,7 @@ Inductive event :=
 | EPersist
 | EFlush
 | ERecover (now : Z) (crash_at : nat)     (* crash_at = n > 0: killed right before the n-th file deletion *)
+| ERecoverFault (now : Z) (fd : dir)      (* recovery while the storage rejects every write under directory fd *)
 | ECrash.
 
 Definition set_files (s : state) f := {| s_files := f; s_store := s_store s; s_run := s_run s; s_act := s_act s;
@@ -882,6 +883,54 @@ Fixpoint recover_files (v : variant) (san : bytes -> bytes) (now : Z) (s : state
       else recover_files v san now s1 rest (kept ++ [f]) crash_at
   end.
 
+(* ---- storage faults during recovery: every Parquet write under directory [fd] fails ---------- *)
+
+(* flushBufferLocked on a failing write: the rows are dropped from memory ("data preserved in WAL"),
+   the buffer entry is deleted and the error is returned *)
+Definition flush_key_fault (s : state) (d fd : dir) : state :=
+  if dir_eqb d fd
+  then set_buffers s (s_store s) (filter (not_in_dir d) (s_buf s)) (filter (not_in_dir d) (s_rbuf s))
+                   (remove dir_eqb d (s_sigs s))
+  else flush_key s d.
+
+(* FlushAll: every buffer is flushed; the result says whether one of them failed *)
+Definition flush_fault (s : state) (fd : dir) : state * bool :=
+  (set_buffers s (s_store s ++ filter (not_in_dir fd) (s_buf s) ++ filter (not_in_dir fd) (s_rbuf s)) [] [] [],
+   existsb (in_dir fd) (s_buf s ++ s_rbuf s)).
+
+Definition buffer_add_fault (s : state) (d : dir) (b : batch) (replayed : bool) (fd : dir) : state :=
+  let s1 := match lookup dir_eqb d (s_sigs s) with
+            | Some sg => if sig_eqb sg (snd b) then s else flush_key_fault s d fd   (* the error is only logged *)
+            | None => s
+            end in
+  set_buffers s1 (s_store s1)
+              (if replayed then s_buf s1 else s_buf s1 ++ fst b)
+              (if replayed then s_rbuf s1 ++ fst b else s_rbuf s1)
+              (insert dir_eqb d (snd b) (s_sigs s1)).
+
+Fixpoint rebuffer_fault (s : state) (bs : list batch) (fd : dir) : state :=
+  match bs with
+  | [] => s
+  | b :: r => rebuffer_fault (match batch_key b with Some d => buffer_add_fault s d b true fd | None => s end) r fd
+  end.
+
+(* RecoverWithOptions under the fault: a file whose FlushReplayed call returns an error is kept *)
+Fixpoint recover_files_fault (v : variant) (san : bytes -> bytes) (now : Z) (s : state)
+         (todo kept : list (list entry)) (fd : dir) : state :=
+  match todo with
+  | [] => set_files s kept
+  | f :: rest =>
+      let '(bs, ok) := replay_file v san now f in
+      let s1 := rebuffer_fault s bs fd in
+      if ok then
+        if v_flush_before_delete v && existsb (fun e => match read_entry v e with Some _ => true | None => false end) f
+        then let '(s2, err) := flush_fault s1 fd in
+             if err then recover_files_fault v san now s2 rest (kept ++ [f]) fd
+             else recover_files_fault v san now s2 rest kept fd
+        else recover_files_fault v san now s1 rest kept fd
+      else recover_files_fault v san now s1 rest (kept ++ [f]) fd
+  end.
+
 Definition step (v : variant) (san : bytes -> bytes) (s : state) (e : event) : state :=
   match e with
   | EStart hold repl rot =>
@@ -896,6 +945,7 @@ Definition step (v : variant) (san : bytes -> bytes) (s : state) (e : event) : s
   | EPersist => if s_run s then persist s else s
   | EFlush => if s_run s then flush s else s
   | ERecover now n => if s_run s then recover_files v san now s (s_files s) [] n else s
+  | ERecoverFault now fd => if s_run s then recover_files_fault v san now s (s_files s) [] fd else s
   | ECrash => crash s
   end.
 
@@ -1256,6 +1306,7 @@ Inductive hevent :=
 | HPersist
 | HFlush
 | HRecover (now : Z) (crash_at : nat) (nleft : nat) (killed : bool)   (* observed: inactive files left, killed *)
+| HRecoverFault (now : Z) (fd : dir) (nleft : nat)                     (* recovery under a storage fault; observed: files left *)
 | HCrash.
 
 Record ccase := { c_variant : variant; c_events : list hevent; c_stored : list orow; c_replica : list orow }.
@@ -1339,6 +1390,9 @@ Fixpoint run_case (v : variant) (s : state) (evs : list hevent) : state * bool :
             let s' := step v idsan s (ERecover now n) in
             (s', Nat.eqb (List.length (s_files s')) (if killed then S nleft else nleft)
                  && Bool.eqb killed (negb (s_run s')))
+        | HRecoverFault now fd nleft =>
+            let s' := step v idsan s (ERecoverFault now fd) in
+            (s', Nat.eqb (List.length (s_files s')) nleft)
         | HWrite now aa al rq status checked =>
             match front v idsan now aa al rq with
             | None => (s, false)
